@@ -627,6 +627,120 @@ theorem netInit_inv (specs : List (Nat × Nat)) (tr : Bool) (links : List ((Nat 
   subst hr hd
   exact init_current sp.1 sp.2 tr
 
+/-! ## completeness of a hop log: nothing that a switch put on a link is left undelivered -/
+
+/-- every frame a logged hop put on a link whose far end is a switch of the network has its hop at that far end in the log -/
+def HopsClosed (links : List ((Nat × Nat) × (Nat × Nat))) (nsw : Nat) (log : List Arrival) : Prop :=
+  ∀ a ∈ log, ∀ o ∈ outPorts a.evs, ∀ e, peer links (a.sw, o) = some e → e.1 < nsw → ∃ a' ∈ log, (a'.sw, a'.port) = e
+
+theorem propagate_length (fuel : Nat) (n : Net) (x : Frame) (q : List (Nat × Nat)) :
+    (propagate fuel n x q).1.sws.length = n.sws.length := by
+  induction fuel generalizing n q with
+  | zero => simp [propagate]
+  | succ fuel ih =>
+    cases q with
+    | nil => simp [propagate]
+    | cons e q =>
+      obtain ⟨i, p⟩ := e
+      simp only [propagate]
+      cases hs : n.sws[i]? with
+      | none => exact ih n q
+      | some s => simp only; rw [ih]; simp
+
+/-- **propagate_complete**: when `propagate` reports `ok` (it emptied its queue within the fuel), every queued arrival at an existing
+switch and every frame put on a link has been processed: the log is closed, no pending arrival was dropped. -/
+theorem propagate_complete (fuel : Nat) (n : Net) (x : Frame) (q : List (Nat × Nat))
+    (hok : (propagate fuel n x q).2.2 = true) :
+    (∀ e ∈ q, e.1 < n.sws.length → ∃ a ∈ (propagate fuel n x q).2.1, (a.sw, a.port) = e) ∧
+    HopsClosed n.links n.sws.length (propagate fuel n x q).2.1 := by
+  induction fuel generalizing n q with
+  | zero =>
+    simp only [propagate, List.isEmpty_iff] at hok
+    subst hok
+    exact ⟨by simp, by intro a ha; simp [propagate] at ha⟩
+  | succ fuel ih =>
+    cases q with
+    | nil => exact ⟨by simp, by intro a ha; simp [propagate] at ha⟩
+    | cons e q =>
+      obtain ⟨i, p⟩ := e
+      simp only [propagate] at hok ⊢
+      cases hs : n.sws[i]? with
+      | none =>
+        rw [hs] at hok; simp only at hok
+        obtain ⟨g1, g2⟩ := ih n q hok
+        refine ⟨?_, g2⟩
+        intro e he hlt
+        rcases List.mem_cons.mp he with h1 | h1
+        · subst h1
+          have := List.getElem?_eq_none_iff.mp hs
+          simp only at hlt; omega
+        · exact g1 e h1 hlt
+      | some s =>
+        rw [hs] at hok; simp only at hok ⊢
+        have hlen : ({ n with sws := n.sws.set i (arrive s n.now p x).1 } : Net).sws.length = n.sws.length := by simp
+        obtain ⟨g1, g2⟩ := ih { n with sws := n.sws.set i (arrive s n.now p x).1 }
+          (q ++ (outPorts (arrive s n.now p x).2).filterMap fun o => peer n.links (i, o)) hok
+        rw [hlen] at g1 g2
+        constructor
+        · intro e he hlt
+          rcases List.mem_cons.mp he with h1 | h1
+          · subst h1; exact ⟨_, List.mem_cons_self, rfl⟩
+          · obtain ⟨a, ha, hae⟩ := g1 e (List.mem_append_left _ h1) hlt
+            exact ⟨a, List.mem_cons_of_mem _ ha, hae⟩
+        · intro a ha o ho e hpeer hlt
+          rcases List.mem_cons.mp ha with h1 | h1
+          · subst h1
+            have : e ∈ (outPorts (arrive s n.now p x).2).filterMap fun o => peer n.links (i, o) :=
+              List.mem_filterMap.mpr ⟨o, ho, hpeer⟩
+            obtain ⟨a', ha', hae⟩ := g1 e (List.mem_append_right _ this) hlt
+            exact ⟨a', List.mem_cons_of_mem _ ha', hae⟩
+          · obtain ⟨a', ha', hae⟩ := g2 a h1 o ho e hpeer hlt
+            exact ⟨a', List.mem_cons_of_mem _ ha', hae⟩
+
+/-- did every frame of the history finish travelling within the fuel? (`netRun` itself does not keep this bit) -/
+def netOk (fuel : Nat) (n : Net) : List NetOp → Bool
+  | [] => true
+  | op :: ops => (netStep fuel n op).2.2 && netOk fuel (netStep fuel n op).1 ops
+
+theorem netStep_shape (fuel : Nat) (n : Net) (op : NetOp) (h : NetInv n) :
+    (netStep fuel n op).1.links = n.links ∧ (netStep fuel n op).1.sws.length = n.sws.length := by
+  cases op with
+  | rx i p x => exact ⟨(propagate_hops fuel n x [(i, p)] h).2.2.1, propagate_length fuel n x [(i, p)]⟩
+  | adv ms => exact ⟨rfl, rfl⟩
+  | sweep i =>
+    simp only [netStep]
+    cases n.sws[i]? <;> simp
+
+/-- **net_complete**: if `netOk` (the driver refuses to answer otherwise), the hop log of every frame of the history is closed —
+the `net_*` theorems then speak about ALL hops the frame makes, not about a truncated log. -/
+theorem net_complete (fuel : Nat) (n : Net) (ops : List NetOp) (h : NetInv n) (hok : netOk fuel n ops = true) :
+    ∀ e ∈ (netRun fuel n ops).2, HopsClosed n.links n.sws.length e.2 := by
+  induction ops generalizing n with
+  | nil => intro e he; simp [netRun] at he
+  | cons op ops ih =>
+    simp only [netOk, Bool.and_eq_true] at hok
+    intro e he
+    simp only [netRun, List.mem_cons] at he
+    rcases he with he | he
+    · subst he
+      cases op with
+      | rx i p x => exact (propagate_complete fuel n x [(i, p)] hok.1).2
+      | adv ms => intro a ha; simp [netStep] at ha
+      | sweep i =>
+        intro a ha
+        simp only [netStep] at ha
+        cases hs : n.sws[i]? <;> simp [hs] at ha
+    · obtain ⟨h1, h2⟩ := netStep_shape fuel n op h
+      have := ih _ (netStep_inv fuel n op h) hok.2 e he
+      rw [h1, h2] at this; exact this
+
+/-- NOT proved (named gap): in a network whose links form a forest no switch port sees the same frame twice, hence no host receives
+a frame twice network-wide.  What is proved is per hop (`net_no_echo_no_dup`: distinct ports, never the ingress) plus `hop_provenance`;
+the step from there to this statement needs a graph argument (two provenance chains to one port close a cycle of distinct links).
+The harness only builds trees and its oracle checks this statement on every frame of every case. -/
+def net_no_dup_full (fuel : Nat) (n : Net) (ops : List NetOp) : Prop :=
+  ∀ e ∈ (netRun fuel n ops).2, (e.2.map fun a => (a.sw, a.port)).Nodup
+
 /-! ## the defect of the UNREPAIRED component (`relearn = false`; finding C11-K1, repaired in /repo by 73d2b4b): a host that returns to an
 earlier port while its old flow is still cached
 
@@ -697,5 +811,9 @@ example : (netRun 66 lineNet lineOps).2.map (fun e => e.2.map fun a => (a.sw, a.
      [], [], [(0, 1, [3]), (1, 1, [2]), (2, 1, [2])]] := by decide
 example : (netRun 66 lineNet lineOps).2.map (fun e => e.2.map fun a => (a.evs.filter (· = Ev.packetIn)).length) =
     [[1, 1, 1], [1, 1, 1], [1, 1, 1], [], [], [0, 1, 0]] := by decide
+
+-- the 66 hops the driver allows are enough here (`net_complete` applies), 2 are not; and no port of the line sees a frame twice
+example : netOk 66 lineNet lineOps = true ∧ netOk 2 lineNet lineOps = false := by decide
+example : net_no_dup_full 66 lineNet lineOps := by unfold net_no_dup_full; decide
 
 end Pox.C11
